@@ -80,8 +80,13 @@ class PersistCheck:
             di, dargs = job
             trace = os.path.join(work, "ptrace%d.ndjson" % di)
             stats = os.path.join(work, "pstats%d.json" % di)
-            c.run_driver(binary, ["persist", "-out", trace, "-stats", stats, "-seed", str(c.seed() * 100 + di)] + dargs,
-                         env=dict(os.environ, TMPDIR=work))
+            try:
+                c.run_driver(binary, ["persist", "-out", trace, "-stats", stats, "-seed", str(c.seed() * 100 + di)] + dargs,
+                             env=dict(os.environ, TMPDIR=work), crash_ok=True)
+            except c.ServerCrash as e:
+                v = c.crash_violation(prop, str(di), e, trace)
+                v["driver"] = dargs
+                return di, dargs, {"crashed": v}, None
             sub = os.path.join(work, "pv%d" % di)
             os.makedirs(sub)
             r = sq.validate_trace(self.trace_spec, trace, devs, sub, parts=4, heap="4g", no_checkmem=True)
@@ -90,6 +95,9 @@ class PersistCheck:
         with ThreadPoolExecutor(max_workers=3) as ex:
             results = list(ex.map(one, list(enumerate(self.jobs[tier]))))
         for di, dargs, st, r in results:
+            if st.get("crashed"):
+                violation = violation or st["crashed"]
+                continue
             for k in ("workloads", "commands", "images", "again", "interleaved", "saves"):
                 total[k] += st.get(k, 0)
             total["skipped"] += r["skipped"]
